@@ -125,3 +125,15 @@ Definition ex_prof (x : bool) : config := mkC [ mkP (3,0) [0] [] [10]; mkP (3,1)
 Example ex_prof_kinds :
   build (ex_prof false) = Err EUnsupported /\ match build (ex_prof true) with Ok g => length (deliver g (Recv 3 0)) = 1 | Err _ => False end.
 Proof. vm_compute. split; reflexivity. Qed.
+
+(* run-time fault: processor 1 of traces/p0 refuses — the paths through traces/p0 are cut, the sibling pipeline
+   traces/p1 (same receiver) still delivers everything, and the receiver is told *)
+Example ex1_fault :
+  match build ex1 with
+  | Ok g => deliver_f g [Proc (0,0) 1] (Recv 0 0) =
+              [(Exp 0 0, []); (Exp 1 0, [Conn 0 1 10; Proc (1, 0) 2]); (Exp 1 1, [Conn 0 1 10; Proc (1, 0) 2])]
+            /\ consume_error g [Proc (0,0) 1] (Recv 0 0) = true /\ consume_error g [Proc (0,0) 1] (Recv 0 1) = true
+            /\ consume_error g [Exp 2 7] (Recv 0 0) = false
+  | Err _ => False
+  end.
+Proof. vm_compute. repeat split; reflexivity. Qed.
